@@ -54,6 +54,8 @@ func (r c01Resp) spec(now time.Time) RS {
 	case "":
 	case "0":
 		h = append(h, [2]string{"Expires", "0"})
+	case "0+3600": // two field lines, the first one invalid: the response is already expired (RFC 9111 §5.3), whatever follows
+		h = append(h, [2]string{"Expires", "0"}, [2]string{"Expires", httpDate(date.Add(secs(3600)))})
 	default:
 		var off int64
 		fmt.Sscan(r.expires, &off)
@@ -79,8 +81,8 @@ func ifs(c bool, s string) string {
 
 var (
 	c01MaxAgeQ = []string{"", "0", "10", "x", "2147483648", "9223372037", "18446744074"}
-	c01Expires = []string{"", "10", "0s", "-10", "0"}
-	c01LM      = []string{"", "-100", "100"}
+	c01Expires = []string{"", "10", "0s", "-10", "0", "0+3600"}
+	c01LM      = []string{"", "-100", "100", "-1500000000"}
 	c01Date    = []string{"now", "-5", "+5", "absent", "invalid", "year 1700"}
 	c01Age     = []string{"", "0", "5", "15", "x", "9223372037", "5, 7", "9223372036854775808", "99999999999999999999"}
 	c01Status  = []int{200, 404, 302}
@@ -107,6 +109,19 @@ func runC01(x *mc.X) {
 		threeStep = x.Choose("three-step", 2) == 1
 	}
 
+	// the zone of the process (a recipient without a Date has to stamp the response itself), and an unrelated earlier
+	// exchange whose response nominates Cache-Control and Expires as hop-by-hop for itself
+	if r.date == "absent" && r.status == 200 && r.delay == 0 {
+		if mc.Pick(x, "process-zone", []string{"UTC-5", "UTC+10"}) == "UTC+10" {
+			old := time.Local
+			time.Local = time.FixedZone("UTC+10", 10*3600)
+			defer func() { time.Local = old }()
+		}
+	}
+	primed := false
+	if x.Tier() == "thorough" || (r.status == 200 && r.delay == 0 && r.swr == "" && reqDir == "" && r.date == "now" && r.age == "") {
+		primed = x.Choose("after-an-unrelated-exchange", 2) == 1
+	}
 	// an extension directive whose quoted argument ends in an escaped backslash, in front of the directives that matter
 	if x.Tier() == "thorough" || (r.status == 200 && r.delay == 0 && r.swr == "" && reqDir == "" && r.date == "now" && r.age == "") {
 		r.extraCC = mc.Pick(x, "resp.extension-directive-first", []string{"", `x-root="C:\\"`, `x-q="a\"b, max-age=99999"`})
@@ -122,6 +137,10 @@ func runC01(x *mc.X) {
 	start := time.Now()
 	if r.expires == "0 " {
 		r.expires = "+0"
+	}
+	if primed {
+		primeUnrelated(x, w)
+		start = time.Now()
 	}
 	spec := r.spec(start)
 	spec.Proto = proto
